@@ -95,10 +95,15 @@ func walk[S, T any](ctx context.Context, g *graph[S], t *traversal[S, T]) error 
 		eg.SetLimit(t.maxConcurrency + 1)
 	}
 
+	// scheduled is closed once walk is done scheduling the extremity nodes
+	scheduled := make(chan struct{})
 	eg.Go(func() error {
 		for {
 			select {
 			case <-ctx.Done():
+				// keep this goroutine's slot in the errgroup until walk stops scheduling
+				// visits, otherwise maxConcurrency+1 visitors could run at once
+				<-scheduled
 				return nil
 			case node := <-nodeCh:
 				expect--
@@ -117,6 +122,7 @@ func walk[S, T any](ctx context.Context, g *graph[S], t *traversal[S, T]) error 
 	for _, node := range t.extremityNodes(g) {
 		t.visit(ctx, eg, node, nodeCh)
 	}
+	close(scheduled)
 
 	return eg.Wait()
 }
